@@ -155,6 +155,14 @@ pub fn install_panic_hook() {
             .location()
             .map(|l| format!("{}:{}", l.file(), l.line()))
             .unwrap_or_default();
+        if msg.contains("unsafe precondition") || msg.contains("cannot unwind") || msg.contains("misaligned") || msg.contains("null pointer") {
+            // about to abort: leave the reason on stderr for the driver
+            eprintln!("fatal (non-unwinding) panic: {} @ {}", msg, loc);
+            eprintln!("{}", std::backtrace::Backtrace::force_capture());
+        }
+        if std::env::var_os("PQVERIF_PANIC_VERBOSE").is_some() {
+            eprintln!("panic: {} @ {}\n{}", msg, loc, std::backtrace::Backtrace::force_capture());
+        }
         LAST_PANIC.with(|p| *p.borrow_mut() = Some(format!("{} @ {}", msg, loc)));
     }));
 }
